@@ -182,6 +182,17 @@ def run(tier, seed):
                 shape = "any"
             failures.append(Failure("C14", f"{mid}:{prob}:name={shape}", f"{fname} body#{bi} {mid}: {detail}",
                                     {"mid": mid, "fname": fname, "text": text, "code": code, "line": line}))
+    # the same header reached through a symbolic link with another name
+    ltasks = []
+    for name in ("panel.h", "my_lib.h"):
+        for mid, fname, text, code, line in variants(name, bods[-1]):
+            if mid in ("G0.accept", "G1.letter", "G2.lower", "G3.nodef"):
+                ltasks.append((name, mid, text))
+    for (name, mid, text), out in zip(ltasks, explore.pmap(link_task, ltasks, chunksize=1)):
+        st.runs += 2
+        for key, detail in out:
+            failures.append(Failure("C14", key, detail, {"mid": key, "fname": name, "text": text, "code": None, "line": None}))
+    st.bump("symlink_runs", 2 * len(ltasks))
     st.states = len(nm) * len(bods)
     st.transitions = st.runs
     st.outcomes = set(nm)
@@ -201,6 +212,40 @@ def run(tier, seed):
     )
 
 
+def link_task(task):
+    """Worker: the header reached through a symbolic link whose own name differs from its target's (and through a
+    path with directories): the guard follows the name the file was *given* on the command line."""
+    import json
+    import os
+    import shutil
+    import tempfile
+    name, mid, text = task
+    d = tempfile.mkdtemp(prefix="mcverif_c14_")
+    out = []
+    try:
+        os.makedirs(os.path.join(d, "store"))
+        with open(os.path.join(d, "store", "widget_target.h"), "w") as f:
+            f.write(text)
+        link = os.path.join(d, name)
+        os.symlink(os.path.join("store", "widget_target.h"), link)
+        want = sorted((x[1], x[2]) for x in impl.run_text(name, text).diags if x[1].startswith("HEADER_PROT"))
+        for how, argv, cwd in (("link", [link], d), ("relative-link", [name], d)):
+            o = impl.run_cli(["--no-colors", "-f", "json"] + argv, cwd=cwd)
+            try:
+                doc = json.loads([l for l in o["stdout"].split("\n") if l.strip()][-1])
+                got = sorted((e["name"], e["highlights"][0]["lineno"]) for fl in doc["files"] for e in fl["errors"] if e["name"].startswith("HEADER_PROT"))
+            except Exception:  # noqa: BLE001
+                out.append((f"link:{mid}:{how}", f"unreadable output {o['stdout'][-100:]!r} exc {o['exc']}"))
+                continue
+            if got != want:
+                out.append((f"link:{mid}:{how}", f"{name} -> store/widget_target.h: protection diagnostics {got}, by the given name {want}"))
+    finally:
+        shutil.rmtree(d, ignore_errors=True)
+    return out
+
+
 def replay(payload):
+    if payload.get("mid", "").startswith("link:"):
+        return [Failure("C14", k, dd, payload) for k, dd in link_task((payload["fname"], payload["mid"][5:].rsplit(":", 1)[0], payload["text"]))]
     res = judge(payload["mid"], payload["fname"], payload["text"], payload["code"], payload["line"])
     return [Failure("C14", f"{payload['mid']}:{res[0]}", res[1], payload)] if res else []
